@@ -23,7 +23,7 @@ DIMS = {
                     ["aes128gcm", "aes128"], "reversed"],
     "macNames": [None, ["sha"], ["sha256"], ["aead"], ["sha384", "aead"], ["sha", "md5"]],
     "keyExchangeNames": [None, ["rsa"], ["dhe_rsa"], ["ecdhe_rsa"], ["ecdhe_ecdsa"], ["ecdhe_rsa", "rsa"], ["dh_anon"],
-                         ["ecdh_anon", "dh_anon"]],
+                         ["ecdh_anon", "dh_anon"], ["srp_sha"], ["srp_sha_rsa"], ["srp_sha_rsa", "srp_sha", "rsa"]],
     "eccCurves": [None, ["secp256r1"], ["x25519"], ["secp384r1", "secp521r1"], ["x448", "secp256r1"], []],
     "dhGroups": [None, ["ffdhe2048"], ["ffdhe3072", "ffdhe4096"]],
     "ecdsaSigHashes": [None, ["sha512"], ["sha384", "sha512"], ["sha256"], ["sha1"]],
@@ -36,7 +36,7 @@ DIMS = {
     "alpn": [None, [b"h2", b"http/1.1"], [b"http/1.1"], [b"spdy/3"]],
     "psk_modes": [None, ["psk_ke"], ["psk_dhe_ke"]],
 }
-SERVER_CREDS = ["rsa", "ecdsa", "rsapss", "rsa+req", "rsa+reqnone", "ecdsa+req", "anon", "rsa+resume", "rsa+chain", "rsa+psk", "rsa+psk2"]
+SERVER_CREDS = ["rsa", "ecdsa", "rsapss", "rsa+req", "rsa+reqnone", "ecdsa+req", "anon", "rsa+resume", "rsa+chain", "rsa+psk", "rsa+psk2", "srp"]
 
 
 def make_settings(choice):
@@ -214,6 +214,11 @@ def _run_pair(idx, cchoice, schoice, scred):
     from ..endpoints import Pair, cred
     chs, calpn = make_settings(cchoice)
     shs, salpn = make_settings(schoice)
+    if scred == "srp":
+        for hs in (chs, shs):
+            hs.maxVersion = min(hs.maxVersion, (3, 3))
+            if hs.minVersion > hs.maxVersion:
+                return {"skip": "SRP needs TLS <= 1.2"}
     if scred == "anon":
         # anonymous key exchange exists only up to TLS 1.2
         for hs in (chs, shs):
@@ -231,6 +236,8 @@ def _run_pair(idx, cchoice, schoice, scred):
     scred, _, ca = scred.partition("+")
     if scred == "anon":
         return _run_anon(idx, p, chs, calpn, shs, salpn, cabs, sabs, cchoice, schoice)
+    if scred == "srp":
+        return _run_srp(idx, p, chs, calpn, shs, salpn, cabs, sabs, cchoice, schoice)
     ch, key = cred(scred)
     ckw = dict(settings=chs, serverName="host.example")
     cltbits = 0
@@ -337,6 +344,37 @@ def _run_pair(idx, cchoice, schoice, scred):
             res["s_out"] = "late:" + o.describe()
         res["c"] = res["s"] = {}
     return {"trace": [cfg, res], "job": [idx, cchoice, schoice, scred_full]}
+
+
+def _run_srp(idx, p, chs, calpn, shs, salpn, cabs, sabs, cchoice, schoice):
+    """SRP: the server has a verifier database AND a certificate (so that both SRP families are possible); both sides
+    must enable an SRP key exchange"""
+    from ..endpoints import cred, shared_srp_db
+    for hs in (chs, shs):
+        if not set(hs.keyExchangeNames) & {"srp_sha", "srp_sha_rsa"}:
+            return {"skip": "SRP key exchange not enabled by this choice"}
+        if hs.minVersion > (3, 3):
+            return {"skip": "SRP needs TLS <= 1.2"}
+    ch, key = cred("rsa")
+    ckw = dict(username=bytearray(b"alice"), password=bytearray(b"password"), settings=chs, serverName="host.example", async_=True)
+    skw = dict(verifierDB=shared_srp_db(), certChain=ch, privateKey=key, settings=shs)
+    if salpn:
+        skw["alpn"] = salpn
+    st, co, so = p.run(p.c.handshakeClientSRP(**ckw), p.s.handshakeServerAsync(**skw))
+    ok = co.ok and so.ok
+    cfg = {"ev": "CFG", "cs": cabs, "ss": sabs, "certKey": "srp", "certBits": 0, "cltBits": 0, "clientAuth": "",
+           "certCurve": "", "candidates": candidates()}
+    res = {"ev": "RES", "ok": ok, "cfail": co.exc is not None, "sfail": so.exc is not None,
+           "c_out": co.describe(), "s_out": so.describe(), "status": st, "msg": _local_msg(co, so)}
+    if ok:
+        res["c"] = view(p.c, "c")
+        res["s"] = view(p.s, "s")
+        p.write("c", b"ping")
+        o = p.read("s", None, 4)
+        res["data"] = bool(o.ok and bytes(o.value or b"") == b"ping")
+    else:
+        res["c"] = res["s"] = {}
+    return {"trace": [cfg, res], "job": [idx, cchoice, schoice, "srp"]}
 
 
 def _run_anon(idx, p, chs, calpn, shs, salpn, cabs, sabs, cchoice, schoice):
